@@ -22,6 +22,13 @@ CFG = {"quick": 260, "thorough": 6000, "persist": ["none", "json", "pickle"], "l
        "bias": {"idreq": 8, "save": 2, "restart": 3, "pres_node": 2}, "malformed": 0.1, "post": [many_ids]}
 
 
+def _stop_restart_idreq(version, hist):
+    return [("X",), ("R",), ("L", "255;255;3;0;3;\n")]
+
+
+CFG["search_suffixes"] = [_stop_restart_idreq]
+
+
 def relevant(hist, obs):
     return sum(1 for o in obs if ";3;0;4;" in "".join(
         chr(int(t)) for s in (o.split(" ")[0][5:].split("|") if o.startswith("sent=") and o[5] != "-" else [])
